@@ -26,24 +26,29 @@ abbrev Text := List Char
 
 /-! ## escaping -/
 
+/-- one character through `write_text_node`: quick-xml `escape`, then `\r` ↦ `&#13;`
+    (writer/driver.rs after the carriage-return fix) -/
 def escChar (c : Char) : Text :=
-  if c = '<' then ['&', 'l', 't', ';']
+  if c = '\r' then ['&', '#', '1', '3', ';']
+  else if c = '<' then ['&', 'l', 't', ';']
   else if c = '>' then ['&', 'g', 't', ';']
   else if c = '&' then ['&', 'a', 'm', 'p', ';']
   else if c = '\'' then ['&', 'a', 'p', 'o', 's', ';']
   else if c = '"' then ['&', 'q', 'u', 'o', 't', ';']
   else [c]
 
-/-- `quick_xml::escape::escape` -/
+/-- `quick_xml::escape::escape` followed by the carriage-return replacement -/
 def escape (s : Text) : Text := s.flatMap escChar
 
+/-- one character through `write_text_node_conversion`: `partial_escape`, then `\r` ↦ `&#13;` -/
 def pescChar (c : Char) : Text :=
-  if c = '<' then ['&', 'l', 't', ';']
+  if c = '\r' then ['&', '#', '1', '3', ';']
+  else if c = '<' then ['&', 'l', 't', ';']
   else if c = '>' then ['&', 'g', 't', ';']
   else if c = '&' then ['&', 'a', 'm', 'p', ';']
   else [c]
 
-/-- `quick_xml::escape::partial_escape` -/
+/-- `quick_xml::escape::partial_escape` followed by the carriage-return replacement -/
 def partialEscape (s : Text) : Text := s.flatMap pescChar
 
 /-! ## unescaping -/
